@@ -183,7 +183,8 @@ class Session:
             small = [i for i in allrecs if self.live[i].ns.n_samples < 1000]
             big = [i for i in allrecs if self.live[i].ns.n_samples >= 1000]
             same = [i for i in small if self.live[i].ns.n_samples == self.live[small[0]].ns.n_samples]
-            pool = same if getattr(self.live[s], "processing_method", "") in ("psd", "diffuse_field") else small
+            # (PSD / diffuse-field calls get recordings of unequal length as well: the inputs are bystanders whatever their lengths)
+            pool = same if (getattr(self.live[s], "processing_method", "") in ("psd", "diffuse_field") and rng.rand() < 0.4) else small
             k = rng.randint(1, len(pool) + 1)
             recs = sorted(rng.choice(pool, k, replace=False).tolist())
             if big and rng.rand() < 0.3:
